@@ -446,6 +446,8 @@ def rule_F1(repo: Repo) -> RuleResult:
                 a = norm(c.args[0]).strip("'\"")
                 if a in ("int", "int64", "np.int64", "i8", "<i8", "np.int_"):
                     int_views.append(d)
+            if isinstance(c, ast.Call) and (call_name(c) or norm(c.func)).split(".")[-1] == "_cast_timestamps_to_ints":
+                int_views.append(d)          # the repo's own int64 view of temporal arrays
     if selfneq and int_views:
         res.bad(wrap, int_views[0], norm(int_views[0])[:80],
                 "the keys are viewed as integers before the monotonic scan, whose null test is a self-inequality (x != x): NaT "
